@@ -748,6 +748,15 @@ def run(ctx: Ctx, rep: Report, tier: str) -> None:
     length_gates(ctx, rep)
     member_numbers_symmetric(ctx, rep)
     header_round_trip(ctx, rep)
+    # R06.15 premises: every address spelling is read whole (C01 R01.16/R01.17); the section dictionary keeps every line
+    # of a section whatever white space indents it (C07 R07.13: text rendered with indent="\t" must be read back)
+    from .c07 import sections_keep_every_line
+
+    sub7 = Report("C06")
+    c01.address_spellings_whole(ctx, sub7)
+    c01.group_reference_whole(ctx, sub7)
+    sections_keep_every_line(ctx, sub7)
+    rep.absorb(sub7, "R06.15")
     # R06.13 the switches a container renders under are the switches its rebuilt members carry (C16 R16.9): a nested
     # group that does not receive protocol_nr renders names where the container's re-parse produces numbers
     from .c16 import settings_propagation
